@@ -45,6 +45,8 @@ structure St where
 
 def lowParams : Params := ⟨4096, 8, 8, 64⟩
 
+def tinyParams : Params := ⟨256, 8, 1, 64⟩
+
 def hexStr (s : String) : String := String.fromUTF8! (ByteArray.mk (Proto.bytesOf s).toArray)
 
 def toHexStr (s : String) : String := Hex.showHex s.toUTF8.toList
@@ -77,6 +79,8 @@ def step (s : St) (toks : List String) : St × String :=
   | ["open", kind] =>
     if kind == "low" then
       (⟨{ (Client.fresh lowParams : Client Blob) with file := some (lowParams, []) }, 0⟩, "ok")
+    else if kind == "tiny" then
+      (⟨{ (Client.fresh tinyParams : Client Blob) with file := some (tinyParams, []) }, 0⟩, "ok")
     else (⟨Client.fresh defaultParams, 0⟩, "ok")
   | ["new", label, alg, _curve, scheme, pw] =>
     let key := 3 * s.nkeys + algCode alg
@@ -128,7 +132,13 @@ def step (s : St) (toks : List String) : St × String :=
     | .ok c' => (⟨c'.save, s.nkeys⟩, "ok")
     | .countMismatch => (s, "err:count")
     | .failed i => (s, s!"err:failed:{i}")
-  | ["exportlow"] => (s, "ok")          -- works on a clone: the wallet itself is not changed
+  | ["exportlow", pws] =>
+    -- works on a clone: the wallet itself is not changed; the export is refused when an account does not decrypt with
+    -- the password given for it (e.g. an account imported with an empty password can never be decrypted)
+    let l := if pws == "-" then [] else (pws.splitOn ",").map Proto.bytesOf
+    match c.reencrypt crypto l (some lowParams) with
+    | .ok _ => (s, "ok")
+    | _ => (s, "err:export")
   | ["save"] => (⟨c.save, s.nkeys⟩, "ok")
   | ["ximport", a] => (s, if (metaOf c a).isSome then "ok" else "nil")   -- the other wallet is outside the model
   | ["chpwfault", a, o, n] =>
